@@ -55,6 +55,9 @@ type Spec[T any] struct {
 	Workers int
 	// Deadline is the backstop for the whole tier (0 = default).
 	Deadline map[string]time.Duration
+	// SoftDeadline (per tier): a worker that has been running for longer starts no further case; the cases left are counted
+	// and reported as a cap (exhaustive=false), the check still exits by its findings
+	SoftDeadline map[string]time.Duration
 	// Prepare runs once in the parent before the workers are started (e.g. to run a model
 	// checker and publish its output through an environment variable).
 	Prepare func(tier string, rep *Report)
@@ -106,6 +109,7 @@ type workerOut struct {
 	Steps       int64             `json:"steps"`
 	Emitted     int64             `json:"emitted"` // every case the generator produced (all shards): must agree across workers
 	EmitHash    uint64            `json:"emit_hash"` // order-sensitive hash of every emitted key: must agree across workers
+	NotRun      int64             `json:"not_run"`   // cases of this shard left out by the soft deadline
 }
 
 const journalSize = 1 << 20
@@ -211,6 +215,8 @@ func (s *Spec[T]) worker(tier string, shard, n int, out string, skipKey string) 
 	wo := workerOut{Shard: shard, Outcomes: map[string]int64{}, Classes: map[string]*classAgg{}}
 	seen := map[uint64]struct{}{}
 	var idx int64
+	started := time.Now()
+	soft := s.SoftDeadline[tier]
 	s.Gen(tier, func(c T) {
 		idx++
 		key := s.Key(c)
@@ -225,6 +231,10 @@ func (s *Spec[T]) worker(tier string, shard, n int, out string, skipKey string) 
 		}
 		seen[h] = struct{}{}
 		if skip[key] {
+			return
+		}
+		if soft > 0 && time.Since(started) > soft {
+			wo.NotRun++
 			return
 		}
 		// journal: length-prefixed key, written before the case runs
@@ -536,6 +546,9 @@ func (s *Spec[T]) shardedRun(tier string, rep *Report) {
 		rep.Distinct += wo.Distinct
 		rep.NonTrivial += wo.NonTrivial
 		rep.Skipped += wo.Skipped
+		if wo.NotRun > 0 {
+			rep.Cap(fmt.Sprintf("shard %d: %d cases not run (soft deadline %s reached)", wo.Shard, wo.NotRun, s.SoftDeadline[tier]))
+		}
 		for k, v := range wo.Outcomes {
 			rep.Outcomes[k] += v
 		}
